@@ -154,7 +154,14 @@ func (f *Frame) execInstr(ins ssa.Instruction, st *State, b *ssa.BasicBlock, idx
 		f.set(ins, Val{Fn: ins.Fn.(*ssa.Function), Env: env, T: u.newAddr(st, "closure")})
 	case *ssa.MakeInterface:
 		x := f.val(ins.X, st)
-		f.set(ins, Val{T: u.defs.Define("mkif", u.boxIface(x, ins.X.Type())), Fn: x.Fn, Env: x.Env})
+		nv := Val{T: u.defs.Define("mkif", u.boxIface(x, ins.X.Type())), Fn: x.Fn, Env: x.Env}
+		if _, isIface := ins.X.Type().Underlying().(*types.Interface); !isIface {
+			xc := x
+			nv.Conc, nv.ConcVal = ins.X.Type(), &xc
+		} else {
+			nv.Conc, nv.ConcVal = x.Conc, x.ConcVal
+		}
+		f.set(ins, nv)
 	case *ssa.ChangeInterface:
 		f.set(ins, f.val(ins.X, st))
 	case *ssa.ChangeType:
